@@ -266,10 +266,12 @@ func cmdCheck(args []string) int {
 				switch {
 				case !okTrace || strings.Contains(out, "VERIF-REPLAY: PANIC") || strings.Contains(out, "ASSUME-FAILED") || strings.Contains(out, "SYM-ASSERT-FAILED"):
 					conform.Mismatch++
+					inconclusive++ // engine and native run disagree on this path: nothing is concluded from it
 					conform.Details = append(conform.Details, fmt.Sprintf("%s: native run diverged (%s)", path, tailStr(strings.TrimSpace(out), 300)))
 					fmt.Fprintf(os.Stderr, "CONFORMANCE-MISMATCH %s (native run failed an assumption/assertion or panicked)\n", path)
 				case got != want:
 					conform.Mismatch++
+					inconclusive++ // engine and native run disagree on this path: nothing is concluded from it
 					conform.Details = append(conform.Details, fmt.Sprintf("%s: engine met [%s], native met [%s]", path, want, got))
 					fmt.Fprintf(os.Stderr, "CONFORMANCE-MISMATCH %s\n  engine: %s\n  native: %s\n", path, want, got)
 				default:
